@@ -36,17 +36,17 @@ type Medium struct {
 }
 
 type Task struct {
-	ID     int        `json:"id"`
-	Call   string     `json:"call"`
-	Opts   []string   `json:"opts,omitempty"` // logger | unknownFields | unknownMessages
+	ID   int      `json:"id"`
+	Call string   `json:"call"`
+	Opts []string `json:"opts,omitempty"` // logger | unknownFields | unknownMessages
 	// SharedOpts: the unknown-field / unknown-message option values are built
 	// once per scenario and the same values are passed to every such task
-	SharedOpts bool `json:"shared_opts,omitempty"`
-	In     string     `json:"in,omitempty"`   // medium id, or "result:<task id>" for Encode
-	File   *ModelFile `json:"file,omitempty"` // Encode of a model-built File
-	Arch   string     `json:"arch,omitempty"`
-	Repeat int        `json:"repeat,omitempty"`
-	Read   ReadPlan   `json:"read"`
+	SharedOpts bool       `json:"shared_opts,omitempty"`
+	In         string     `json:"in,omitempty"`   // medium id, or "result:<task id>" for Encode
+	File       *ModelFile `json:"file,omitempty"` // Encode of a model-built File
+	Arch       string     `json:"arch,omitempty"`
+	Repeat     int        `json:"repeat,omitempty"`
+	Read       ReadPlan   `json:"read"`
 	// WriteFail: the n-th Write call of the sink fails (Encode only; 0 = never)
 	WriteFail int `json:"write_fail,omitempty"`
 	// Seq: the call is made this many times in a row on the same reader
